@@ -10,7 +10,8 @@ def run(tier, seed):
         rule='seeded histories of new_eq / new_conj / new_disj / new_at_most_one / new_exct_one calls (argument lists of '
              'length 0-7 with duplicates, complementary pairs, constants, root-assigned arguments, repeated requests) on the '
              'real sat_core; every emitted clause is captured by the hook and the returned literal is compared with the '
-             'formula in every model (enumeration); distinct_nontrivial = distinct executions containing a constructor call',
+             'formula in every model (enumeration); plus the expression cache on networks with thousands of variables (profile cache: every pair and a third of the triples of 22 plain variables for every constructor, seeded requests with negated / repeated arguments): CacheTrace requires that a literal answered for two requests stands for equivalent formulas (truth table over their variables) and that constant / argument answers are equivalent to the request; distinct_nontrivial = distinct executions containing a constructor call',
+        cache=(8, 40),
         assumptions=['at most 11 propositional variables per execution (model enumeration)',
                      'argument lists are read as sets of literals'])
 
